@@ -112,27 +112,62 @@ def build():
                  'result._shortname_to_id == (self._shortname_to_id if is_none(shortname_to_id) else some(shortname_to_id))',
                  'result._globalname_to_id == (self._globalname_to_id if is_none(globalname_to_id) else some(globalname_to_id))',
                  'result._generation == self._generation + 1'])
+    w.define('NAMEINV(s, c, nm)', 'implies(not is_none(nm), (implies(has_sn(c), (c, shortname_of(some(nm))) in s._shortname_to_id)) and '
+             '(implies(is_qualified(c), some(nm) in s._name_to_id)) and (implies(not is_qualified(c), (c, some(nm)) in s._globalname_to_id)))')
+    w.trusted.append('name-index invariant NAMEINV (the current name of the object being changed is present in the indexes its class uses) is assumed at the entry of the mutators; '
+                     'its preservation for all objects is not proved (the explorer checks the name index natively)')
     w.define('DOM(s)', 'forall(Id, lambda r: (r in s._id_to_data) == (r in s._id_to_type))')
     SINV = lambda x: ['LEN(%s)' % x, 'DOM(%s)' % x]
     RIPRE = 'RI(self)'      # needed for the KeyError-freedom precondition of _update_refs_to (entries to be removed are present)
     ALLWFC = 'forall(Cls, lambda c: %s)' % WFC('c')
-    w.ext_methods['FS._update_obj_name'] = dict(params={'obj_id': 'Id', 'sclass': 'Cls', 'old_name': 'Opt[Obj]', 'new_name': 'Opt[Obj]'},
-        returns='Tuple[Map[Obj,Id],Map[Tuple[Cls,Obj],Set[Id]],Map[Tuple[Cls,Obj],Id]]', raises={'SchemaError': {}, 'UnknownModuleError': {}})
-    w.trusted.append('name indexes: FlatSchema._update_obj_name is not under contract (arbitrary result or SchemaError / UnknownModuleError)')
+    # ---- name indexes: _update_obj_name against a whole-view postcondition
+    w.ufunc('is_qualified', ['Cls'], 'bool'); w.ufunc('has_sn', ['Cls'], 'bool'); w.ufunc('shortname_of', ['Obj'], 'Obj')
+    w.ext_funcs['issubclass'] = dict(params={'c': 'Cls', 'base': 'Obj'}, returns='bool', ensures_seq=[['result == is_qualified(c)'], ['result == has_sn(c)']])
+    w.ext_funcs['sn.shortname_from_fullname'] = dict(params={'n': 'Obj'}, returns='Obj', ensures=['result == shortname_of(n)'])
+    w.ext_methods['FS.get_by_id'] = dict(params={'id': 'Id', 'type': 'Obj'}, optional=('type',), returns='Obj')
+    w.ext_methods['FS.has_module'] = dict(params={'m': 'Obj'}, returns='bool')
+    w.ext_methods['Obj.get_verbosename'] = dict(params={'schema': 'FS', 'with_parent': 'bool'}, optional=('with_parent',), returns='str')
+    w.ext_methods['Obj.get_module_name'] = dict(params={}, returns='Obj')
+    w.opaque_exprs['so.QualifiedObject'] = 'Obj'; w.opaque_exprs['SPECIAL_MODULES'] = 'Set[Obj]'; w.opaque_exprs['so.Object'] = 'Obj'
+    w.opaque_exprs['(s_func.Function, s_oper.Operator)'] = 'Obj'
+    w.classes['Obj']['module'] = 'Obj'; w.classes['Obj']['name'] = 'Obj'
+    w.define('SNIN(m, c, n, i)', '(c, n) in m and i in m[(c, n)]')
+    OLDN = 'not is_none(old_name)'; NEWN = 'not is_none(new_name)'
+    w.contract(SCH, 'FlatSchema._update_obj_name', params={'self': 'FS', 'obj_id': 'Id', 'sclass': 'Cls', 'old_name': 'Opt[Obj]', 'new_name': 'Opt[Obj]'},
+        returns='Tuple[Map[Obj,Id],Map[Tuple[Cls,Obj],Set[Id]],Map[Tuple[Cls,Obj],Id]]',
+        # the short-name entry that is taken away must be there (part of the schema invariant)
+        requires=['implies(%s and has_sn(sclass), (sclass, shortname_of(some(old_name))) in self._shortname_to_id)' % OLDN,
+                  'implies(%s and is_qualified(sclass), some(old_name) in self._name_to_id)' % OLDN,
+                  'implies(%s and not is_qualified(sclass), (sclass, some(old_name)) in self._globalname_to_id)' % OLDN],
+        ensures=[
+            # full-name index (qualified objects) / global-name index (the others): the old name goes, the new name maps to the object, nothing else changes
+            'implies(is_qualified(sclass), result[2] == self._globalname_to_id and forall(Obj, lambda n: (n in result[0]) == ((n in self._name_to_id and not (%s and n == some(old_name))) or (%s and n == some(new_name)))))' % (OLDN, NEWN),
+            'implies(is_qualified(sclass) and %s, result[0][some(new_name)] == obj_id)' % NEWN,
+            'implies(is_qualified(sclass), forall(Obj, lambda n: implies(n in result[0] and not (%s and n == some(new_name)), result[0][n] == self._name_to_id[n])))' % NEWN,
+            'implies(not is_qualified(sclass), result[0] == self._name_to_id and forall(Cls, Obj, lambda c, n: ((c, n) in result[2]) == (((c, n) in self._globalname_to_id and not (%s and c == sclass and n == some(old_name))) or (%s and c == sclass and n == some(new_name)))))' % (OLDN, NEWN),
+            'implies(not is_qualified(sclass) and %s, result[2][(sclass, some(new_name))] == obj_id)' % NEWN,
+            # short-name index (functions / operators): the object is filed under the short name of its new full name and no longer under the old one
+            'implies(has_sn(sclass), forall(Cls, Obj, Id, lambda c, n, i: SNIN(result[1], c, n, i) == ((SNIN(self._shortname_to_id, c, n, i) and not (%s and c == sclass and n == shortname_of(some(old_name)) and i == obj_id))'
+            ' or (%s and c == sclass and n == shortname_of(some(new_name)) and i == obj_id))))' % (OLDN, NEWN),
+            'implies(not has_sn(sclass), result[1] == self._shortname_to_id)'],
+        raises={'SchemaError': {}, 'UnknownModuleError': {}, 'AssertionError': {}, 'AttributeError': {}},
+        hints=dict(var_types={'ids': 'Set[Id]', 'new_ids': 'Set[Id]'}))
     SAMEDATA = 'forall(Id, lambda r: implies(r != obj.id, (r in result._id_to_data) == (r in self._id_to_data) and implies(r in self._id_to_data, result._id_to_data[r] == self._id_to_data[r])))'
     w.contract(SCH, 'FlatSchema.set_obj_field', params={'self': 'FS', 'obj': 'SObj', 'fieldname': 'FName', 'value': 'Obj'}, returns='FS',
-        requires=SINV('self') + [RIPRE, WFC('CLS(self, obj.id)'), 'implies(obj.id in self._id_to_type, fieldname in cls_fields(CLS(self, obj.id)))'],
+        requires=SINV('self') + [RIPRE, WFC('CLS(self, obj.id)'), 'implies(obj.id in self._id_to_type, fieldname in cls_fields(CLS(self, obj.id)))',
+                  'implies(obj.id in self._id_to_data, NAMEINV(self, CLS(self, obj.id), self._id_to_data[obj.id][cls_fields(CLS(self, obj.id))["name"].index]))'],
         modifies=FSF,
         ensures=SINV('result') + FROZEN + [SAMEDATA, 'result._id_to_type == self._id_to_type', 'obj.id in result._id_to_data'],
-        raises={'SchemaError': dict(ensures=['heap_same("%s")' % f for f in FSF]), 'UnknownModuleError': dict(ensures=['heap_same("%s")' % f for f in FSF])},
+        raises={'SchemaError': dict(ensures=['heap_same("%s")' % f for f in FSF]), 'UnknownModuleError': dict(ensures=['heap_same("%s")' % f for f in FSF]), 'AssertionError': dict(ensures=['heap_same("%s")' % f for f in FSF]), 'AttributeError': dict(ensures=['heap_same("%s")' % f for f in FSF])},
         call_ghost={'FlatSchema._update_refs_to': {'olddata': 'data', 'newdata': 'new_data'}},
         hints=dict(var_types={'orig_refs': 'Map[FName,Set[Id]]', 'new_refs': 'Map[FName,Set[Id]]', 'data_list': 'Seq[Opt[Obj]]'}))
     w.contract(SCH, 'FlatSchema.unset_obj_field', params={'self': 'FS', 'obj': 'SObj', 'fieldname': 'FName'}, returns='FS',
-        requires=SINV('self') + [RIPRE, WFC('CLS(self, obj.id)'), 'implies(obj.id in self._id_to_type, fieldname in cls_fields(CLS(self, obj.id)))'],
+        requires=SINV('self') + [RIPRE, WFC('CLS(self, obj.id)'), 'implies(obj.id in self._id_to_type, fieldname in cls_fields(CLS(self, obj.id)))',
+                  'implies(obj.id in self._id_to_data, NAMEINV(self, CLS(self, obj.id), self._id_to_data[obj.id][cls_fields(CLS(self, obj.id))["name"].index]))'],
         modifies=FSF,
         ensures=['implies(result != self, %s)' % x for x in SINV('result') + FROZEN + [SAMEDATA, 'result._id_to_type == self._id_to_type', 'obj.id in result._id_to_data',
                  'is_none(result._id_to_data[obj.id][cls_fields(CLS(self, obj.id))[fieldname].index])']],
-        raises={'SchemaError': dict(ensures=['heap_same("%s")' % f for f in FSF]), 'UnknownModuleError': dict(ensures=['heap_same("%s")' % f for f in FSF])},
+        raises={'SchemaError': dict(ensures=['heap_same("%s")' % f for f in FSF]), 'UnknownModuleError': dict(ensures=['heap_same("%s")' % f for f in FSF]), 'AssertionError': dict(ensures=['heap_same("%s")' % f for f in FSF]), 'AttributeError': dict(ensures=['heap_same("%s")' % f for f in FSF])},
         call_ghost={'FlatSchema._update_refs_to': {'olddata': 'data', 'newdata': 'new_data'}},
         hints=dict(var_types={'orig_refs': 'Map[FName,Set[Id]]', 'data_list': 'Seq[Opt[Obj]]'}))
     # update_obj: the general mutator (several fields at once)
@@ -151,23 +186,17 @@ def build():
         'sclass == cls_of(obj)', 'all_fields == cls_fields(sclass)', 'object_ref_fields == cls_objref(sclass)', 'reducible_fields == cls_red(sclass)', 'obj_id == obj.id']
     w.contract(SCH, 'FlatSchema.update_obj', params={'self': 'FS', 'obj': 'SObj', 'updates': 'Map[FName,Opt[Obj]]'}, returns='FS',
         requires=SINV('self') + [RIPRE, WFC('cls_of(obj)'), 'obj.id in self._id_to_data', 'cls_of(obj) == CLS(self, obj.id)',
-                  'forall(FName, lambda n: implies(n in updates, n in cls_fields(cls_of(obj))))'],
+                  'forall(FName, lambda n: implies(n in updates, n in cls_fields(cls_of(obj))))',
+                  'NAMEINV(self, cls_of(obj), self._id_to_data[obj.id][cls_fields(cls_of(obj))["name"].index])'],
         modifies=FSF,
         ensures=['implies(result != self, %s)' % x for x in SINV('result') + FROZEN + [SAMEDATA, 'result._id_to_type == self._id_to_type', 'obj.id in result._id_to_data']],
-        raises={'SchemaError': dict(ensures=['heap_same("%s")' % f for f in FSF]), 'UnknownModuleError': dict(ensures=['heap_same("%s")' % f for f in FSF])},
+        raises={'SchemaError': dict(ensures=['heap_same("%s")' % f for f in FSF]), 'UnknownModuleError': dict(ensures=['heap_same("%s")' % f for f in FSF]), 'AssertionError': dict(ensures=['heap_same("%s")' % f for f in FSF]), 'AttributeError': dict(ensures=['heap_same("%s")' % f for f in FSF])},
         loops={0: dict(fingerprint='for (fieldname, value) in updates.items()', done='dU', invariant=ULOOP)},
         call_ghost={'FlatSchema._update_refs_to': {'olddata': 'self._id_to_data[obj_id]', 'newdata': 'data'}},
         hints=dict(var_types={'orig_refs': 'Map[FName,Set[Id]]', 'new_refs': 'Map[FName,Set[Id]]', 'data': 'Seq[Opt[Obj]]',
                               'name_to_id': 'Opt[Map[Obj,Id]]', 'shortname_to_id': 'Opt[Map[Tuple[Cls,Obj],Set[Id]]]', 'globalname_to_id': 'Opt[Map[Tuple[Cls,Obj],Id]]'}))
     # add_raw / _delete: the object appears / disappears as a referrer of exactly what its field tuple references
     w.classes['Cls']['__name__'] = 'TName'
-    w.ext_methods['FS.get_by_id'] = dict(params={'id': 'Id'}, optional=('type',), returns='Obj'); w.ext_methods['FS.get_by_id']['params'] = {'id': 'Id', 'type': 'Obj'}
-    w.ext_methods['FS.has_module'] = dict(params={'m': 'Obj'}, returns='bool')
-    w.ext_methods['Obj.get_verbosename'] = dict(params={'schema': 'FS'}, optional=('with_parent',), returns='str'); w.ext_methods['Obj.get_verbosename']['params'] = {'schema': 'FS', 'with_parent': 'bool'}
-    w.ext_methods['Obj.get_module_name'] = dict(params={}, returns='Obj')
-    w.ext_funcs['issubclass'] = dict(params={'c': 'Cls', 'base': 'Obj'}, returns='bool')
-    w.opaque_exprs['so.QualifiedObject'] = 'Obj'; w.opaque_exprs['SPECIAL_MODULES'] = 'Set[Obj]'; w.opaque_exprs['so.Object'] = 'Obj'
-    w.classes['Obj']['module'] = 'Obj'
     NAMEF = 'cls_fields(sclass)[strlit_name()]'
     w.contract(SCH, 'FlatSchema.add_raw', params={'self': 'FS', 'id': 'Id', 'sclass': 'Cls', 'data': 'Seq[Opt[Obj]]'}, returns='FS',
         requires=SINV('self') + [RIPRE, WFC('sclass'), 'len(data) == nfields(sclass)', 'class_by_name(sclass.__name__) == sclass', '"name" in cls_fields(sclass)',
@@ -177,7 +206,7 @@ def build():
         ensures=SINV('result') + FROZEN + ['id in result._id_to_data', 'result._id_to_data[id] == data', 'CLS(result, id) == sclass',
                  'forall(Id, lambda r: implies(r != id, (r in result._id_to_data) == (r in self._id_to_data) and implies(r in self._id_to_data, result._id_to_data[r] == self._id_to_data[r])))'],
         raises={'SchemaError': dict(ensures=['heap_same("%s")' % f for f in FSF]), 'UnknownModuleError': dict(ensures=['heap_same("%s")' % f for f in FSF]),
-                'KeyError': dict(ensures=['heap_same("%s")' % f for f in FSF]), 'IndexError': dict(ensures=['heap_same("%s")' % f for f in FSF]), 'TypeError': dict(ensures=['heap_same("%s")' % f for f in FSF]), 'AttributeError': dict(ensures=['heap_same("%s")' % f for f in FSF])},
+                'AssertionError': dict(ensures=['heap_same("%s")' % f for f in FSF]), 'KeyError': dict(ensures=['heap_same("%s")' % f for f in FSF]), 'IndexError': dict(ensures=['heap_same("%s")' % f for f in FSF]), 'TypeError': dict(ensures=['heap_same("%s")' % f for f in FSF]), 'AttributeError': dict(ensures=['heap_same("%s")' % f for f in FSF])},
         loops={0: dict(fingerprint='for field in object_ref_fields', done='dA', invariant=[
                  'object_ref_fields == cls_objref(sclass)',
                  'forall(Field, lambda F: implies(F in cls_objref(sclass), (F.name in new_refs) == (F in dA and not is_none(data[F.index]))))',
@@ -186,13 +215,14 @@ def build():
         call_ghost={'FlatSchema._update_refs_to': {'olddata': 'None', 'newdata': 'data'}},
         hints=dict(var_types={'new_refs': 'Map[FName,Set[Id]]', 'refs_to': 'Opt[%s]' % REFS}))
     w.contract(SCH, 'FlatSchema._delete', params={'self': 'FS', 'obj': 'SObj'}, returns='FS',
-        requires=SINV('self') + [RIPRE, WFC('cls_of(obj)'), 'implies(obj.id in self._id_to_data, cls_of(obj) == CLS(self, obj.id))', '"name" in cls_fields(cls_of(obj))'],
+        requires=SINV('self') + [RIPRE, WFC('cls_of(obj)'), 'implies(obj.id in self._id_to_data, cls_of(obj) == CLS(self, obj.id))', '"name" in cls_fields(cls_of(obj))',
+                  'implies(obj.id in self._id_to_data, NAMEINV(self, cls_of(obj), self._id_to_data[obj.id][cls_fields(cls_of(obj))["name"].index]))'],
         modifies=FSF,
         ensures=SINV('result') + FROZEN + ['not (obj.id in result._id_to_data)', 'not (obj.id in result._id_to_type)',
                  'forall(Id, lambda r: implies(r != obj.id, (r in result._id_to_data) == (r in self._id_to_data) and implies(r in self._id_to_data, result._id_to_data[r] == self._id_to_data[r])))'],
         raises={'UnknownModuleError': dict(ensures=['heap_same("%s")' % f for f in FSF]),
                 'InvalidReferenceError': dict(only_if='not (obj.id in self._id_to_data)', ensures=['heap_same("%s")' % f for f in FSF]),
-                'AttributeError': dict(ensures=['heap_same("%s")' % f for f in FSF]),
+                'AttributeError': dict(ensures=['heap_same("%s")' % f for f in FSF]), 'AssertionError': dict(ensures=['heap_same("%s")' % f for f in FSF]),
                 'SchemaError': dict(ensures=['heap_same("%s")' % f for f in FSF])},
         loops={0: dict(fingerprint='for field in object_ref_fields', done='dD', invariant=[
                  'object_ref_fields == cls_objref(sclass)', 'values == self._id_to_data[obj.id]', 'sclass == cls_of(obj)',
